@@ -6,6 +6,13 @@ export VERIF_OUT="$HERE"
 ROUNDS=${1:-5}
 IDS=${2:-"C01 C02 C03 C04 C05 C06 C07 C08 C09 C10 C11 C12 C13 C14 C15 C16 C17 C18 C19 C20"}
 cd "$HERE"
+# with `vp run --with-repo` the checks are built against the snapshot of /repo's HEAD, so that experiments
+# applied to /repo meanwhile cannot disturb the soak
+if [ -n "${VP_RUN_REPO:-}" ] && [ -d "$VP_RUN_REPO/memcrs" ]; then
+  sed -i "s#/repo/memcrs#$VP_RUN_REPO/memcrs#" harness/Cargo.toml
+  export VERIF_REPO="$VP_RUN_REPO"
+  echo "soak uses repo snapshot $VP_RUN_REPO"
+fi
 bad=0
 for r in $(seq 1 $ROUNDS); do
   for id in $IDS; do
